@@ -41,7 +41,7 @@ func oracleC01(l *harness.Live) (c01Info, *harness.Failure) {
 	var info c01Info
 	want, err := refNodes(l)
 	if err != nil {
-		return info, harness.Failf("reference evaluates", err.Error(), "generator produced an expression outside the reference fragment")
+		return info, refFailure(err)
 	}
 	info.want = want.IDs()
 	e, f := compileLive(l)
@@ -111,6 +111,7 @@ func TestC01Rapid(t *testing.T) {
 			o.NS = &xgen.NSOpts{Prefixes: []string{"", "", "p", "q"}, URIs: []string{"", "u"}}
 			o.ElNames = xgen.ElNames2
 		}
+		shape := xgen.Shape(rt, &o)
 		doc := xgen.Doc(rt, o)
 		ctx := xgen.Context(rt, doc, 4)
 		g := xgen.NewG(rt, doc)
@@ -135,6 +136,7 @@ func TestC01Rapid(t *testing.T) {
 		if prefixed {
 			info.labels = append(info.labels, "doc:prefixed-names")
 		}
+		info.labels = append(info.labels, shape)
 		uC01Rapid.Case(harness.Mix(doc.Hash(), uint64(ctx.ID), harness.Hash64(l.Expr)), info.nontrivial, info.labels, func() interface{} {
 			return l.Sample("result", describe(doc, info.want))
 		})
